@@ -2,6 +2,7 @@ package props
 
 import (
 	"crypto/tls"
+	"errors"
 	"fmt"
 	"strings"
 	"sync"
@@ -37,10 +38,14 @@ func init() {
 					}
 					for _, mux := range c16Mux {
 						for _, proto := range []string{"netrpc", "grpc"} {
-							for _, tlsm := range []string{"none", "provider", "envcert"} {
+							for _, tlsm := range []string{"none", "provider", "envcert", "provider-error"} {
 								for _, ln := range []string{"unix", "unixdir", "unixdirpct", "tcp", "tcpbusy"} {
 									// keep the matrix affordable: vary listener kind and tls fully only for the right cookie
-									if cookie != "right" && (ln != "unix" || tlsm != "none") {
+									// (a TLS provider that FAILS is tried with every cookie value: the refusal must not depend on it)
+									if cookie != "right" && (ln != "unix" || (tlsm != "none" && tlsm != "provider-error")) {
+										continue
+									}
+									if tlsm == "provider-error" && (ln != "unix" || (mux != "unset" && mux != "true")) {
 										continue
 									}
 									if cookie == "right" && hc == "ok" && mux != "unset" && mux != "true" && ln != "unix" && ln != "unixdirpct" {
@@ -112,6 +117,9 @@ func runC16(r *h.Run) {
 		sc := &plugin.ServeConfig{HandshakeConfig: hs, Plugins: h.PluginSet(proto, sh)}
 		if proto == "grpc" {
 			sc.GRPCServer = plugin.DefaultGRPCServer
+		}
+		if tlsm == "provider-error" {
+			sc.TLSProvider = func() (*tls.Config, error) { return nil, errors.New("tls init: no certificate available") }
 		}
 		if tlsm == "provider" {
 			sc.TLSProvider = func() (*tls.Config, error) {
@@ -221,6 +229,11 @@ func runC16(r *h.Run) {
 		}
 	}
 	expectServe := cookie == "right" && hc == "ok"
+	if expectServe && tlsm == "provider-error" {
+		// right cookie, but the plugin cannot set up its transport security: it
+		// must not announce anything (its exit status is not specified)
+		noListener = true
+	}
 	if noListener {
 		// the plugin cannot create its listener: it must not announce anything
 		rp, err := r.SpawnRaw("plugin", "/bin/served", env, opts)
